@@ -1,3 +1,15 @@
 package main
 
-func extractRest4(l *loaded, genDir, jsonDir string) error { return nil }
+func extractRest4(l *loaded, genDir, jsonDir string) error {
+	sites, ctx, err := extractErrorSites(l)
+	if err != nil {
+		return err
+	}
+	if err := writeJSON(jsonDir+"/error_sites.json", map[string]any{"sites": sites, "ctx_sites": ctx}); err != nil {
+		return err
+	}
+	if err := emitErrorsLean(sites, ctx, genDir); err != nil {
+		return err
+	}
+	return extractRest5(l, genDir, jsonDir)
+}
